@@ -171,9 +171,26 @@ def rule_trial(run):
     idx = run.idx
     vb = idx.mod(VB)
     r = vb.func("_Redirect.__init__")
-    t = P.T(r.node)
-    ok = "target.type(TypeQualifier.decay(source))" in t and "target.type(source)" in t
-    run.ob(ok, "_Redirect.__init__", file=vb.rel, line=r.node.lineno, detail="trial-construct", expected="target.type(<source>) constructed for both qualified and constant sources", found="ok" if ok else "changed")
+    # every trial construction target.type(X) is fed from the SOURCE (through locals), never from the target itself
+    params = [a.arg for a in r.node.args.args]
+    tgt, srcp = (params[1], params[2]) if len(params) >= 3 else ("target", "source")
+
+    def deps(e, depth=0):
+        out = set()
+        for nm in ast.walk(e):
+            if isinstance(nm, ast.Name):
+                if nm.id in (tgt, srcp):
+                    out.add(nm.id)
+                elif depth < 4:
+                    for a in walk_local(r.node):
+                        if isinstance(a, ast.Assign) and any(dotted(t_) == nm.id for t_ in a.targets):
+                            out |= deps(a.value, depth + 1)
+        return out
+
+    trials = [c for c in walk_local(r.node) if isinstance(c, ast.Call) and dotted(c.func) == f"{tgt}.type" and c.args]
+    ok = len(trials) >= 2 and all(deps(c.args[0]) == {srcp} for c in trials)
+    run.ob(ok, "_Redirect.__init__", file=vb.rel, line=r.node.lineno, detail="trial-construct", expected=f"{tgt}.type(<value of {srcp}>) constructed for both qualified and constant sources",
+           found="ok" if ok else "; ".join(f"{src(c)} <- {sorted(deps(c.args[0])) or 'nothing'}" for c in trials) or "no trial construction")
     # the trial may not be swallowed
     tries = [x for x in walk_local(r.node) if isinstance(x, ast.Try)]
     ok = all(any(isinstance(s, ast.Raise) for s in h.body) for x in tries for h in x.handlers)
@@ -555,12 +572,56 @@ def rule_views(run):
     views.run_kind_rule(run, "F-VIEW.kind")   # u.signed / s.unsigned reinterpret, they never return the object unconverted
 
 
+def rule_ctor_width(run):
+    run.begin(
+        "C05.ctorwidth",
+        "a vector constructed from a vector (or string) of another width is rejected: BitVector.__init__ compares the "
+        "widths itself before it copies the bits - the copy (Span.apply_zip) pairs the bits with zip, which silently stops "
+        "at the shorter operand (a wider source is truncated, a narrower one leaves the upper bits uninitialised)",
+        floor=2,
+    )
+    from ..astutil import unconditional_stmt
+    bvm = run.idx.mod("cohdl/_core/_bit_vector.py")
+    f = bvm.func("BitVector.__init__")
+    params = [a.arg for a in f.node.args.args]
+    v = params[1] if len(params) > 1 else "val"
+    n = 0
+    for br in ast.walk(f.node):
+        if isinstance(br, ast.If) and isinstance(br.test, ast.Call) and dotted(br.test.func) == "isinstance" and dotted(br.test.args[0]) == v and dotted(br.test.args[1]) in ("BitVector", "str"):
+            kind = dotted(br.test.args[1])
+            copies = [a for a in br.body if isinstance(a, ast.Assign) and dotted(a.targets[0]) == "start_val"]
+            if not copies:
+                continue
+            n += 1
+            def is_width_check(st):
+                if not isinstance(st, ast.Assert):
+                    return False
+                for c in ast.walk(st.test):
+                    if isinstance(c, ast.Compare) and len(c.ops) == 1 and isinstance(c.ops[0], ast.Eq):
+                        sides = src(c.left) + " " + src(c.comparators[0])
+                        if v in sides and "self._width" in sides and ("width" in sides.replace("self._width", "") or "len(" in sides):
+                            return True
+                return False
+            chk = [st for st in br.body if is_width_check(st)]
+            ok = bool(chk) and chk[0].lineno < copies[0].lineno
+            run.ob(ok, "BitVector.__init__", file=bvm.rel, line=br.lineno, detail=f"from-{kind}", expected=f"assert <width of {v}> == self._width before the bits are copied",
+                   found="ok" if ok else "no width comparison: the bit-wise copy zips the two spans and stops at the shorter one")
+    if n < 2:
+        raise AnalysisError("BitVector.__init__: value branches (BitVector / str) not recognised")
+    run.end()
+
+
+def rule_port_kinds(run):
+    from . import c12
+    c12.rule_port_widths(run)   # port associations are not converted: declared kind and width of the actual equal the port's
+
+
 def rule_alias(run):
     from ..rules import snapshot
     snapshot.run_alias_rule(run, "F-ALIAS")
 
 
-RULES = [rule_front, rule_back, rule_trial, rule_join, rule_literals, rule_shadow, rule_backend_sites, rule_bit_literals, rule_select_default, rule_own_value, rule_copy, rule_view_cast, rule_views, rule_alias]
+RULES = [rule_front, rule_back, rule_trial, rule_join, rule_literals, rule_shadow, rule_backend_sites, rule_bit_literals, rule_select_default, rule_own_value, rule_copy, rule_view_cast, rule_views, rule_ctor_width, rule_port_kinds, rule_alias]
 LEVEL = "other"
 EXPLANATION = (
     "Conversion matrices decided statically for all widths and values: (front end) the accept/reject decision and "
